@@ -14,6 +14,7 @@ import (
 	"encoding/json"
 	"fmt"
 	"os"
+	"strings"
 	"sync"
 	"time"
 
@@ -59,7 +60,11 @@ func run(c *lib.Ctx) error {
 	// ---- M
 	mMax, mPool, mSets := 4, "tiny", "{15}"
 	if c.Thorough() {
-		mMax, mPool, mSets = 4, "tiny", "1..30"
+		var nums []string
+		for i := 1; i <= 30; i++ {
+			nums = append(nums, fmt.Sprint(i))
+		}
+		mMax, mPool, mSets = 4, "tiny", "{"+strings.Join(nums, ", ")+"}" // cfg files have no `..`
 	}
 	c.Set("model_bounds", map[string]any{"max_len": mMax, "pool": mPool, "spec_sets": mSets})
 	mcfg := fmt.Sprintf("CONSTANT MaxLen = %d\nCONSTANT PoolSel = \"%s\"\nCONSTANT SpecNums = %s\nINIT Init\nNEXT Next\n"+
